@@ -791,6 +791,17 @@ func c06Cache(w *World, r *Report, id, slug string) {
 			}
 		})
 		ob.Site(fn.Pos(), "events."+m+" forwards the raft event")
+		// the send waits for the dispatcher: a non-blocking select (a `default` arm) drops the
+		// event whenever the dispatcher is busy with another one
+		eachInstr(fn, func(in ssa.Instruction) {
+			if sel, ok := in.(*ssa.Select); ok && !sel.Blocking {
+				for _, s := range sel.States {
+					if s.Dir == types.SendOnly && s.Send != nil {
+						ob.Violate("event-droppable/"+m, in.Pos(), "events."+m+" sends the event in a select with a default arm: when the dispatcher is busy the event is dropped and the log cache keeps entries the log no longer has")
+					}
+				}
+			}
+		})
 		if sends == 0 {
 			ob.Violate("event-not-forwarded/"+m, fn.Pos(), "events."+m+" does not forward the event to the dispatcher")
 		}
